@@ -1,11 +1,17 @@
 (* C20 - Spec-side definitions (what the property text says), no proofs.
 
-   quiescent: the side condition of the _partial theorems and, literally, the
-   classifier `bind-crosses-use-cc` of tools/props/C20.py: computed from the
-   history and the records of the run only.
-     Q1  no midi-bind that is not the answer to a midi-use-CC is sent while a
-         controller is pending (offered, its answer not yet arrived);
-     Q2  no controller is offered while such a bind is on its way. *)
+   nocross: the side condition of the _partial theorems and, literally, the
+   predicate `nocross` of tools/props/C20.py (the class bind-crosses-use-cc is
+   contained in its complement): computed from the history and the records of
+   the run only.  The model driver evaluates it on every generated history and
+   the correspondence run compares it with the Python value.
+     N1  a midi-bind that is not the answer to a midi-use-CC (map / unMap /
+         clear send such binds) is sent only when every pending controller's
+         answer is already on its way: the number of pending controllers
+         (offered, not yet released by a bind) equals the number of answering
+         binds in flight;
+     N2  no controller is offered while such a bind is on its way.
+   (Stage 1-3 had the stronger `quiescent`: N1 with "nothing is pending".) *)
 From Coq Require Import List ZArith Bool.
 From RtoscV Require Import Midi.MidiModel.
 Import ListNotations.
@@ -23,30 +29,33 @@ Definition op_tags (r : list obs) : list tag :=
 Definition ans_tags (r : list obs) : list tag :=
   flat_map (fun o => match o with OB => [TBa] | _ => [] end) r.
 
-Fixpoint quiescent_from (pend : Z) (ch : list tag) (evs : list event) (tr : list (list obs)) : bool :=
+Definition is_TBa (t : tag) : bool := match t with TBa => true | _ => false end.
+Definition count_TBa (ch : list tag) : Z := Z.of_nat (length (filter is_TBa ch)).
+
+Fixpoint nocross_from (pend : Z) (ch : list tag) (evs : list event) (tr : list (list obs)) : bool :=
   match evs, tr with
   | e :: es, r :: rs =>
       match e with
       | EMap _ _ | EUnmap _ _ | EClear =>
-          if existsb is_OB r && negb (pend =? 0) then false
-          else quiescent_from pend (ch ++ op_tags r) es rs
+          if existsb is_OB r && negb (pend =? count_TBa ch) then false
+          else nocross_from pend (ch ++ op_tags r) es rs
       | ECC _ _ _ _ =>
           if existsb is_OU r then
-            if existsb is_TBf ch then false else quiescent_from (pend + 1) ch es rs
-          else quiescent_from pend ch es rs
-      | EDelN => quiescent_from pend (ch ++ ans_tags r) es rs
+            if existsb is_TBf ch then false else nocross_from (pend + 1) ch es rs
+          else nocross_from pend ch es rs
+      | EDelN => nocross_from pend (ch ++ ans_tags r) es rs
       | EDelR =>
           match ch with
-          | [] => quiescent_from pend ch es rs
+          | [] => nocross_from pend ch es rs
           | t :: ch' =>
-              quiescent_from (if is_TB t && (0 <? pend) then pend - 1 else pend) ch' es rs
+              nocross_from (if is_TB t && (0 <? pend) then pend - 1 else pend) ch' es rs
           end
       end
   | _, _ => true
   end.
 
-Definition quiescent (evs : list event) (tr : list (list obs)) : bool :=
-  quiescent_from 0 [] evs tr.
+Definition nocross (evs : list event) (tr : list (list obs)) : bool :=
+  nocross_from 0 [] evs tr.
 
 (* 14-bit composition as the text states it: the coarse controller supplies
    bits 7..13, the fine controller bits 0..6 *)
